@@ -27,8 +27,8 @@ Qed.
 
 Theorem closed_offsets' : forall this_year s ra l,
   s <> s_eyecite -> short_page_ok s ->
-  search_ok (engine_search U meta_table) ->
-  (forall w, engine_search U meta_table PPostShort w <> None) ->
+  search_ok (engine_search UM meta_table) ->
+  (forall w, engine_search UM meta_table PPostShort w <> None) ->
   get_citations_closed this_year s ra = Ok l ->
   Forall (offsets_ok s) l.
 Proof.
@@ -38,7 +38,7 @@ Qed.
 
 Theorem closed_metadata' : forall this_year s l,
   s <> s_eyecite -> short_page_ok s ->
-  search_ok (engine_search U meta_table) -> defyear_ok (engine_search U meta_table) ->
+  search_ok (engine_search UM meta_table) -> defyear_ok (engine_search UM meta_table) ->
   get_citations_closed this_year s false = Ok l ->
   Forall (meta_ok s l) l.
 Proof.
@@ -48,7 +48,7 @@ Qed.
 
 Theorem closed_metadata_ra' : forall this_year s ra l,
   s <> s_eyecite -> short_page_ok s ->
-  search_ok (engine_search U meta_table) -> defyear_ok (engine_search U meta_table) ->
+  search_ok (engine_search UM meta_table) -> defyear_ok (engine_search UM meta_table) ->
   get_citations_closed this_year s ra = Ok l ->
   exists l0, get_citations_closed this_year s false = Ok l0 /\
              (forall c, In c l -> In c l0) /\ Forall (meta_ok s l0) l.
